@@ -2,13 +2,13 @@
 """usage: import_seed2.py <prop> <X> "<confirmed line>"   (round-2 layout, from /tmp/wt/out-<prop>r/<X>/)"""
 import sys, os, shutil, json, glob, subprocess
 prop, x, confirmed = sys.argv[1:4]
-src = "/tmp/wt/out-%sr/%s" % (prop, x)
+src = sys.argv[4] if len(sys.argv) > 4 else "/tmp/wt/out-%sr/%s" % (prop, x)
 dst = "/verif/seeded/%s-%s" % (prop, x)
 os.makedirs(dst + "/demo", exist_ok=True)
 shutil.copy(src + "/patch.diff", dst + "/patch.diff")
 if os.path.exists(src + "/notes.md"): shutil.copy(src + "/notes.md", dst + "/notes.md")
 demos = []
-for f in glob.glob(src + "/demo/**/*.go", recursive=True):
+for f in [g for g in glob.glob(src + "/demo/**/*", recursive=True) if os.path.isfile(g)]:
     rel = os.path.relpath(f, src + "/demo")
     os.makedirs(os.path.dirname(dst + "/demo/" + rel) or ".", exist_ok=True)
     # stored with a .txt suffix so that nothing under /verif is picked up as Go source
